@@ -150,6 +150,8 @@ type FuncSpec struct {
 	PanicEnsures []Clause // obligations of an exit by panic (panicvalue = the value)
 	Defines  []Clause // definitional equations for ghost functions of a freshly constructed result (assumed at return; see DESIGN)
 	Implements []string // interface-method contracts whose ensures this function must also satisfy
+	Anchor     string   // closures only: text on the source line where the function literal starts; the contract binds to the closure found there, whatever its ordinal
+	AnchorErr  string   // set at load time when the anchor matches no closure, or several
 	Split []Expr // case split over the parameters: every obligation is discharged once per case (and once for 'none')
 	Unroll   map[int]int
 	Doc      string
